@@ -19,6 +19,8 @@ Program AST (plain dicts, JSON-serialisable):
 """
 import collections.abc  # noqa
 import signal
+import os
+import json
 
 CMPS = {"<": "CLt", "<=": "CLe", "==": "CEq", "!=": "CNe", ">=": "CGe", ">": "CGt"}
 CTLS = {"stop": "CStop", "start": "CStart", "run": "CRun", "abort": "CAbort", "ready": "CReady"}
@@ -53,14 +55,25 @@ class Index(object):
 
 
 def unders_of(fm, fr):
-    """resolved .unders order: children in declaration order, 'under X' moves X first"""
-    kids = [c["name"] for c in fm["frames"] if c.get("over") == fr["name"]]
-    u = fr.get("under")
-    if u and u in kids:
-        kids.remove(u)
-        kids.insert(0, u)
-    return kids
-
+    """resolved .unders order, as Frame.resolveOverLinks builds it: frames are taken in declaration order and
+    each one climbs its chain of still unresolved over links, appending itself (then its over, ...) to the
+    over's unders; a script `under X` reserves position 0 for X.  With parents declared before children this
+    is plain declaration order of the children; with forward references an ancestor chain can be attached
+    early (frame f2 in f1 declared first attaches f1 to f0 before an earlier-declared-later sibling)."""
+    frs = {f["name"]: f for f in fm["frames"]}
+    unders = {n: ([f["under"]] if f.get("under") and frs.get(f["under"], {}).get("over") == n else [])
+              for n, f in frs.items()}
+    resolved = set()
+    for f in fm["frames"]:
+        under, over, guard = f["name"], f.get("over"), 0
+        while over and guard < 100:
+            if under not in resolved:
+                resolved.add(under)
+                if under not in unders[over]:
+                    unders[over].append(under)
+            under, over = over, frs[over].get("over")
+            guard += 1
+    return unders[fr["name"]]
 
 
 # ---------------------------------------------------------------------------
@@ -1008,6 +1021,10 @@ def correspond(ctx, nprog, features=None, ticks=(0.125,), sizes=(2, 4), crash="n
         i = idx[j]
         p, ca, ob, _ = metas[i]
         metas[i] = (p, ca, ob, True)
+        if os.environ.get("VERIF_DUMP_MISMATCH"):
+            with open(os.environ["VERIF_DUMP_MISMATCH"], "a") as f:
+                f.write(json.dumps({"prog": p, "crash_at": ca, "maxticks": maxticks, "trace": ob["trace"],
+                                    "vars": ob["vars"], "status": ob["status"]}) + "\n")
         if len(out) < 3:
             ctx.tie_broken("correspondence", "%s: model and implementation traces differ" % label,
                            json_dumps({"flo": render_flo(p), "crash_at": ca, "impl": ob}))
